@@ -12,14 +12,14 @@ import "go/types"
 //@   ensures fresh(result) && result.namer == rawNamer
 
 //@ func Dumper.Name
-//@   props C03 C11 C05
+//@   props C03 C11 C05:frame
 //@   requires d != nil && d.namer != nil
 //@   assigns *
 //@   preserves pkg/gengo/snippet. pkg/gengo/internal.
 //@   note the dumper hands the reference to ITS namer (the one of the file being written) and keeps nothing: the only state that may change is the namer's / its import table's
 
 //@ func Dumper.TypeLit
-//@   props C11 C05
+//@   props C11 C05:frame
 //@   requires d != nil && d.namer != nil && tpe != nil
 //@   assume forall t typesutil.Type :: t != nil ==> t.Elem() != nil && t.Key() != nil
 //@   assume forall t typesutil.Type, i int :: t != nil ==> t.Field(i) != nil && t.Field(i).Type() != nil
@@ -28,21 +28,21 @@ import "go/types"
 //@   note frame only (C05: rendering a type literal memoises nothing in snippet values; names go through the file's own namer). What the text MEANS (C11) is not claimed.
 
 //@ func Dumper.ReflectTypeLit
-//@   props C11 C05
+//@   props C11 C05:frame
 //@   requires d != nil && d.namer != nil
 //@   assume typesutil.FromRType(tpe) != nil
 //@   assigns *
 //@   preserves pkg/gengo/snippet. pkg/gengo/internal.
 
 //@ func Dumper.TypesTypeLit
-//@   props C11 C05
+//@   props C11 C05:frame
 //@   requires d != nil && d.namer != nil && !spec_isAliasType(tpe)
 //@   assume typesutil.FromTType(tpe) != nil
 //@   assigns *
 //@   preserves pkg/gengo/snippet. pkg/gengo/internal.
 
 //@ func Dumper.ValueLit
-//@   props C05 C10
+//@   props C05:frame C10
 //@   requires d != nil && d.namer != nil
 //@   requires forall i int :: 0 <= i && i < len(optFns) ==> optFns[i] != nil
 //@   assume forall v reflect.Value :: v.Type() != nil
